@@ -112,8 +112,38 @@ def edit(rng, text, kinds_wanted=None):
     return variant, sorted(tags)
 
 
+def seeds_case(rng, quick):
+    """the layout edits are insignificant in EVERY process: scripts with arrays and loops in LF / CR LF / CR form (and with tab
+    indentation, comments, a missing final newline) loaded in fresh interpreters under other hash seeds must give what the LF text
+    gives in this one"""
+    bases = ["name s\nversion 1.0\n# header\nfloat array A =\n    1, 2\n    3, 4.5\nfor int i in 0:2\n    Sgate(A[i]) | i  # c\n    Vac | i\nMeasureX | 0\n",
+             "name s\nversion 1.0\n\nint array B[1, 2] =\n    7, 8\nfor float x in [0.5, 1.5]\n    Rgate(x) | 1\nKgate(B) | 0"]
+    variants = []
+    for b in bases:
+        for nl in ("\n", "\r\n", "\r"):
+            for tab in (False, True):
+                t = b.replace("    ", "\t") if tab else b
+                variants.append((b, t.replace("\n", nl)))
+    seeds = [3, 6, 8, 11] if quick else list(range(1, 33))
+
+    def pred(impl, variants=variants, seeds=seeds):
+        import subproc
+        jobs = [([{"kind": "loads", "text": v} for _, v in variants], s, None) for s in seeds]
+        results = subproc.run_many(jobs)
+        for s, r in zip(seeds, results):
+            for (b, v), o in zip(variants, r):
+                ref = impl.loads(b)
+                if o.get("out") != "ok":
+                    return "under PYTHONHASHSEED=%s a layout variant (line ends %r) of a valid script fails: %s %s" % (s, "\r\n" if "\r\n" in v else "\r" if "\r" in v else "\n", o.get("cls"), str(o.get("msg"))[:80])
+                if len(o["obs"]["ops"]) != len(ref.operations):
+                    return "under PYTHONHASHSEED=%s a layout variant loads to %d operations, the LF text to %d" % (s, len(o["obs"]["ops"]), len(ref.operations))
+        return None
+    yield {"tag": "line-ends-under-hash-seeds", "pred": pred, "key": "seeds", "input": {"check": "pred", "tag": "line-ends-under-hash-seeds"}}
+
+
 def cases(rng, quick, gr):
     yield from file_cases(rng, quick)
+    yield from seeds_case(rng, quick)
     nbase = 120 if quick else 2000
     nedit = 8 if quick else 40
     for i in range(nbase):
